@@ -103,6 +103,28 @@
 //! ```
 
 mod client;
+#[cfg(feature = "__verif")]
+#[doc(hidden)]
+pub mod verif {
+    //! Verification hook - DO NOT USE! Requires the internal `__verif` feature.
+    #![allow(missing_docs)]
+    use std::sync::{Arc, Mutex};
+
+    /// Called on the compile thread before compilation starts, with (computation id, party).
+    pub type Gate = Arc<dyn Fn(uuid::Uuid, usize) + Send + Sync>;
+    static GATE: Mutex<Option<Gate>> = Mutex::new(None);
+
+    pub fn set_compile_gate(g: Option<Gate>) {
+        *GATE.lock().expect("gate lock") = g;
+    }
+
+    pub(crate) fn compile_gate(id: uuid::Uuid, party: usize) {
+        let g = GATE.lock().expect("gate lock").clone();
+        if let Some(g) = g {
+            g(id, party)
+        }
+    }
+}
 mod handle;
 mod policy;
 mod state;
